@@ -2,6 +2,8 @@
 
 package sctp
 
+import "time"
+
 // C06 — unordered / partially reliable delivery: at most once, intact, policy-bounded.
 
 // C06.L4: unordered reassembly. Two unordered messages whose fragments occupy
@@ -334,5 +336,61 @@ func vh_C06_L6_skip_keeps_live_unordered_message() {
 		vassert(len(got) == 1 && vBytesEq(got[0], m), "the reliable unordered message is delivered intact whatever was skipped around it")
 	}
 	vassert(a.inflightQueue.size() == 0, "sender drained")
+	vcover("end")
+}
+
+// C06.L7: lifetime-limited (timed) partial reliability. A single-chunk message on a stream
+// with lifetime L ms is sent once; every transmission is lost; then time passes in steps
+// (each longer than L) and T3 expires after each step. Once the lifetime has expired at
+// most one further transmission of the message occurs, the message is then abandoned, the
+// peer is told to skip it, and a DCEP message is never abandoned.
+func vh_C06_L7_lifetime_limit() {
+	il := vPick(2) == 1
+	a, _ := vPair(vAssocOpts{interleaving: il, pickTSN: true})
+	a.useForwardTSN, a.useIForwardTSN = !il, il
+	s, err := a.OpenStream(1, PayloadTypeWebRTCBinary)
+	vassert(err == nil, "open stream")
+	lifetime := uint32([]int{0, 5, 20}[vPick(3)]) // ms
+	s.SetReliabilityParams(vPick(2) == 1, ReliabilityTypeTimed, lifetime)
+	dcep := vPick(2) == 1
+	ppi := PayloadTypeWebRTCBinary
+	if dcep {
+		ppi = PayloadTypeWebRTCDCEP
+	}
+	_, werr := s.WriteSCTP(nondetBytes(2), ppi)
+	vassert(werr == nil, "write accepted")
+	first := a.myNextTSN
+	onWire, afterExpiry := 0, 0
+	fwd := false
+	elapsed := time.Duration(0)
+	for round := 0; round < 5; round++ {
+		for _, raw := range vWriterWake(a) { // every packet is lost
+			p := vDecode(raw)
+			for _, c := range p.chunks {
+				switch x := c.(type) {
+				case *chunkPayloadData:
+					if x.tsn == first {
+						onWire++
+						if elapsed > time.Duration(lifetime)*time.Millisecond {
+							afterExpiry++
+						}
+					}
+				case *chunkForwardTSN, *chunkIForwardTSN:
+					fwd = true
+				}
+			}
+		}
+		vSleep(30 * time.Millisecond) // longer than every lifetime above
+		elapsed += 30 * time.Millisecond
+		vFireRtx(a, a.t3RTX)
+	}
+	if dcep {
+		vassert(onWire == 5 && !fwd, "a DCEP message is retransmitted for as long as needed and never abandoned")
+	} else {
+		vassert(onWire >= 1, "the message is sent")
+		vassert(afterExpiry <= 1, "once the lifetime has expired at most one further transmission of the message occurs")
+		vassert(fwd, "once the lifetime has expired the peer is told to skip the message")
+	}
+	vobserve("onWire", uint64(onWire))
 	vcover("end")
 }
